@@ -97,14 +97,20 @@ def single_group_programs(seed, n, syms=gen.SYMS, tids=None):
         sym = syms[i % len(syms)]
         rank = rng.randint(3, 4)
         x = gen.rand_array(rng, sym, rank, "abelian", sparse=1.0, minc=2, maxc=2, maxd=2 if rank == 3 else 1,
-                           dtype=rng.choice(["float64", "complex64"]))
+                           dtype=gen.DTYPES[(i // len(syms)) % 4])
         axes = list(range(rank))
         rng.shuffle(axes)
         groups = [axes[:2], axes[2:3]] + ([axes[3:4]] if rank == 4 and rng.random() < 0.5 else [])
         rng.shuffle(groups)
         steps = [{"op": "fuse", "in": ["x"], "out": ["f"], "args": {"groups": groups, "mode": "insert"}},
                  {"op": "fuse", "in": ["x"], "out": ["fc"], "args": {"groups": groups, "mode": "concat"}},
-                 rel("array_equal", "C05.strategies_agree", "f", "fc")]
+                 rel("array_equal", "C05.strategies_agree", "f", "fc"),
+                 # two-axis groups only, both strategies, then the other zero-creating operations
+                 {"op": "fuse", "in": ["x"], "out": ["g"], "args": {"groups": [groups[0]] if len(groups[0]) > 1 else [axes[:2]], "mode": "concat"}},
+                 {"op": "unfuse_all", "in": ["g"], "out": ["gu"], "args": {}},
+                 {"op": "to_dense", "in": ["x"], "out": ["xd"], "args": {}},
+                 {"op": "copy", "in": ["x"], "out": ["xf"], "args": {}},
+                 {"op": "fill_missing_blocks", "in": ["xf"], "out": ["xf"], "args": {}}]
         progs.append({"tid": tids(), "inputs": {"x": x}, "steps": steps})
     return progs
 
